@@ -32,6 +32,47 @@ def step (t : List String) : String :=
   | ["padlen", n, p, q] => match n.toInt?, parseRat? (p ++ "/" ++ q) with
       | some n, some Q => s!"{(padOutLen n Q).num}"
       | _, _ => "bad-op"
+  | ["padsrc", n, N] => match n.toInt?, N.toInt? with
+      | some n, some N => fmtList toString ((List.range N.toNat).map fun (i : Nat) => (padSrc n N (i : Int)).getD (-1))
+      | _, _ => "bad-op"
+  | ["cropsrc", n, N] => match n.toInt?, N.toInt? with
+      | some n, some N => fmtList toString ((List.range N.toNat).map fun (i : Nat) => cropSrc n N (i : Int))
+      | _, _ => "bad-op"
+  | ["shifts", n] => match n.toInt? with
+      | some n =>
+          let f := (List.range n.toNat).map fun (i : Nat) => rollSrc n (npFftshiftBy n) (i : Int)
+          let g := (List.range n.toNat).map fun (i : Nat) => rollSrc n (npIfftshiftBy n) (i : Int)
+          fmtList toString (f ++ g)
+      | _ => "bad-op"
+  | ["fftfreq", n] => match n.toInt? with
+      | some n => fmtList toString ((List.range n.toNat).map fun (i : Nat) =>
+          fftfreqOf (npFftfreqSplit n) npFftfreqP1Lo (npFftfreqP2Lo n) (i : Int))
+      | _ => "bad-op"
+  | ["slices", m, n, dx] => match m.toInt?, n.toInt?, parseRat? dx with
+      | some m, some n, some dx =>
+          let xv := slicesXVec (gridX m n dx)
+          let yv := slicesYVec (gridY m n dx)
+          let cy := slicesCentreY argminAbs m n xv yv
+          let cx := slicesCentreX argminAbs m n xv yv
+          let src : Int → Int → Int := fun i j => i * n + j + 1
+          let l (k : Int) (f : Int → Int) := fmtList toString ((List.range k.toNat).map fun (i : Nat) => f (i : Int))
+          s!"{cy} {cx} | {l n (sliceXTwo src cy cx)} | {l m (sliceYTwo src cy cx)} | {l (n - cx) (sliceXOne src cy cx)} | {l (m - cy) (sliceYOne src cy cx)} | {fmtRat (sliceXOneCoord xv cx 0)} {fmtRat (sliceYOneCoord yv cy 0)}"
+      | _, _, _ => "bad-op"
+  | ["vec", m, n, k, dx] => match m.toInt?, n.toInt?, k.toInt?, parseRat? dx with
+      | some m, some n, some k, some dx => s!"{fmtRat (vecX m n dx k)} {fmtRat (vecY m n dx k)}"
+      | _, _, _, _ => "bad-op"
+  | ["dxdiam", d, m, n] => match parseRat? d, m.toInt?, n.toInt? with
+      | some d, some m, some n => fmtRat (dxOfDiameter d m n)
+      | _, _, _ => "bad-op"
+  | ["autocrop", c, px] => match c.toInt?, px.toInt? with
+      | some c, some px => s!"{autocropLo c px} {autocropHi c px}"
+      | _, _ => "bad-op"
+  | ["support", m, n, dx] => match m.toInt?, n.toInt?, parseRat? dx with
+      | some m, some n, some dx => s!"{fmtRat (supportX m n dx)} {fmtRat (supportY m n dx)}"
+      | _, _, _ => "bad-op"
+  | ["resample", len, z] => match len.toInt?, parseRat? z with
+      | some len, some z => s!"{(resampleOut len z).num}"
+      | _, _ => "bad-op"
   | _ => "bad-op"
 
 def main : IO Unit := mainLoop step
